@@ -3,6 +3,8 @@ import ScriggoV.Lemmas.EscapeCss
 import ScriggoV.Lemmas.EscapeUrl
 import ScriggoV.Lemmas.EscapeJs
 import ScriggoV.Lemmas.URLQuery
+import ScriggoV.Lemmas.URLAttr
+import ScriggoV.Gen.ShowInURLPipe
 /-! C07 — escaped values decode back to the exact original text.
 
 Escapers: `Model/Escape.lean` (loops hand-written, tables/predicates regenerated from
@@ -206,6 +208,103 @@ theorem srcset_stale_flags :
           .show [0x78,0x26,0x79] true true, .text [0x20,0x32,0x78] true true]).toOption.map Prod.snd
       = some [.path [0x61,0x3F,0x62,0x3D] true, .raw [0x2C,0x20], .path [0x69,0x6D,0x67] true,
           .raw [0x3F,0x77,0x3D], .path [0x78,0x26,0x79] true, .amp, .raw [0x20,0x32,0x78]] := by
+  decide +kernel
+
+/-- The same defect class, second instance (known finding `url-srcset-comma-text-hides-query`):
+`Text` does not look for `?`/`#` in a text that contains a comma, so when the candidate separator
+and the start of the next URL's query are in one static text (`/a 1x, /b?w=`) the value after
+it is written by `pathEscape`. -/
+theorem srcset_comma_text_hides_query :
+    (run [.text [0x2F,0x61,0x20,0x31,0x78,0x2C,0x20,0x2F,0x62,0x3F,0x77,0x3D] true true,
+          .show [0x78,0x26,0x79] true true]).toOption.map Prod.snd
+      = some [.raw [0x2F,0x61,0x20,0x31,0x78,0x2C,0x20,0x2F,0x62,0x3F,0x77,0x3D],
+          .path [0x78,0x26,0x79] true] := by
+  decide +kernel
+
+/-- Known finding `url-lone-question-mark-text`: after a value that brought the `?`, a static
+text that is exactly `?` is dropped and — being empty then — not replaced by `&amp;`, while
+the flags are reset: the next value is glued to what the first value ended with
+(`/q?a=1` `?` `b` writes `/q?a=1` `` `b`). -/
+theorem lone_question_mark_text_dropped :
+    (run [.show [0x2F,0x71,0x3F,0x61,0x3D,0x31] true true, .text [0x3F] true false,
+          .show [0x62] true true]).toOption.map Prod.snd
+      = some [.path [0x2F,0x71,0x3F,0x61,0x3D,0x31] true, .raw [], .query [0x62]] := by
+  decide +kernel
+
+/-! ### The URL attribute pipeline end to end, for plain strings
+The browser's side: the HTML tokenizer decodes the character references of the attribute value
+(`htmlDecode`, any named-reference table that knows `amp`, `lt`, `gt`), the URL is split at its
+delimiters, and the components are percent-decoded (`pctDecode`). The renderer's side:
+`showInURL` writes `queryEscape (html.UnescapeString (htmlEscape v))` for a plain string `v`
+(as opposed to a `native.HTML` value, whose character references are decoded first by design:
+`attribute_noentities_keeps_references`). -/
+
+/-- **The pipeline in front of the escapers is the identity on plain strings**, stated over the
+two stage names regenerated from the body of `showInURL` (`Gen/ShowInURLPipe.lean`): the string
+handed to `pathEscape`/`queryEscape` is the shown string itself. With `showInText` in place of
+`showInHTML` (a plain string written as it is and then entity-decoded) this is false —
+`&amp;` would reach the escaper as `&` — and the theorem does not build. -/
+theorem showInURL_pipeline_plain_string (v : Bytes) :
+    shownStringVia Gen.ShowInURLPipe.shownVia Gen.ShowInURLPipe.decodedBy v = some v := by
+  have hv := html_roundtrip stdNamed ⟨fun _ => rfl, fun _ => rfl, fun _ => rfl⟩ v
+  simp [shownStringVia, Gen.ShowInURLPipe.shownVia, Gen.ShowInURLPipe.decodedBy, hv]
+
+/-- the escapers `showInURL` calls on that string are the two modelled ones -/
+theorem showInURL_pipeline_escapers :
+    ∀ e ∈ Gen.ShowInURLPipe.escapers, e = "pathEscape" ∨ e = "queryEscape" := by
+  decide
+
+/-- what the alternative pipeline would do (the reason for the statement above) -/
+example : shownStringVia "showInText" "html.UnescapeString" [0x26,0x61,0x6D,0x70,0x3B] = some [0x26] := by
+  decide +kernel
+
+/-- **One value, both decoders composed**: entity-decoding and then percent-decoding what the
+renderer writes for a plain string in a query position gives the string back. -/
+theorem url_attr_value_roundtrip (named : Named) (plusAsSpace : Bool)
+    (v : Bytes) (inURL quoted : Bool) :
+    pctDecode plusAsSpace (htmlDecode named (render (tok (.show (shownString v) inURL quoted))))
+      = some v := by
+  have hv : shownString v = v := shownString_eq v
+  have hs := steps_noAmp named (queryEscapeOut v) (queryEscapeOut_noAmp v)
+  have hd := steps_decode named _ _ _ hs (Nat.le_refl _)
+  simp [tok, render, renderOut, hv, hd, query_roundtrip]
+
+/-- **The whole attribute value.** Static text without a bare `&`, `&amp;` separators (the
+author's or the renderer's) and any number of plain strings shown in query positions: the
+tokenizer's decoding acts piece by piece — no character reference of the static text reaches
+into a value, none arises inside a value or across its ends. -/
+theorem url_attr_entity_decode (named : Named) (hstd : Named.Std named) (ps : List Piece)
+    (hok : ∀ p ∈ ps, p.ok = true) :
+    htmlDecode named (ps.flatMap Piece.src) = ps.flatMap Piece.val := by
+  obtain ⟨k, h, l⟩ := pieces_steps named hstd ps hok
+  exact steps_decode named _ _ k h l
+
+/-- **A value in its context, both decoders composed.** In the attribute value the browser
+sees, the slot of `v` holds `queryEscape v`: bytes that are inert for the URL splitter (no
+`& ; # ? = + / ,`, no white space, quote or angle bracket — so the slot is neither cut nor
+joined with its neighbours, in a `srcset` either), and percent-decoding them gives `v`. -/
+theorem url_attr_query_value_roundtrip (named : Named) (hstd : Named.Std named)
+    (plusAsSpace : Bool) (pre post : List Piece) (v : Bytes)
+    (hpre : ∀ p ∈ pre, p.ok = true) (hpost : ∀ p ∈ post, p.ok = true) :
+    htmlDecode named ((pre ++ .value v :: post).flatMap Piece.src)
+        = pre.flatMap Piece.val ++ queryEscapeOut v ++ post.flatMap Piece.val ∧
+      (∀ c ∈ queryEscapeOut v, urlInert c = true) ∧
+      pctDecode plusAsSpace (queryEscapeOut v) = some v := by
+  refine ⟨?_, queryEscapeOut_inert v, query_roundtrip plusAsSpace v⟩
+  rw [url_attr_entity_decode named hstd]
+  · simp [List.flatMap_append, List.flatMap_cons, Piece.val]
+  · intro p hp
+    simp only [List.mem_append, List.mem_cons] at hp
+    rcases hp with hp | rfl | hp
+    · exact hpre p hp
+    · rfl
+    · exact hpost p hp
+
+-- non-vacuity: `/p?a=1&amp;q=` `{{ "Q&amp;A" }}` `&amp;r=2` decodes to `/p?a=1&q=Q%26amp%3bA&r=2`
+example : htmlDecode stdNamed (([.plain [0x2F,0x70,0x3F,0x61,0x3D,0x31], .amp, .plain [0x71,0x3D],
+      .value [0x51,0x26,0x61,0x6D,0x70,0x3B,0x41], .amp, .plain [0x72,0x3D,0x32]] : List Piece).flatMap Piece.src)
+    = [0x2F,0x70,0x3F,0x61,0x3D,0x31, 0x26, 0x71,0x3D,
+       0x51,0x25,0x32,0x36,0x61,0x6D,0x70,0x25,0x33,0x62,0x41, 0x26, 0x72,0x3D,0x32] := by
   decide +kernel
 
 end ScriggoV.URLRender
